@@ -56,10 +56,25 @@ def run(ctx: RuleContext):
 
 
 class Site:
-    def __init__(self, fn, unpack_stmt, live):
+    def __init__(self, fn, unpack_stmt, live, tuple_var=None):
         self.fn = fn
         self.unpack = unpack_stmt
-        self.live = live  # list of 4 names
+        self.live = live  # list of 4 names (None where a slot has no name of its own)
+        self.tuple_var = tuple_var  # name of the variable holding the whole 4-tuple, if any
+
+
+def _live_from_tuple_var(f, tv):
+    """Names bound to slots of the tuple variable tv: `a, b, c, d = tv` / `x = tv[i]`."""
+    live = [None, None, None, None]
+    for n in walk_scope(f.node):
+        if isinstance(n, ast.Assign) and isinstance(n.value, ast.Name) and n.value.id == tv and isinstance(n.targets[0], (ast.Tuple, ast.List)) and len(n.targets[0].elts) == 4:
+            for i, e in enumerate(n.targets[0].elts):
+                if isinstance(e, ast.Name) and e.id != "_":
+                    live[i] = e.id
+        if isinstance(n, ast.Assign) and isinstance(n.value, ast.Subscript) and isinstance(n.value.value, ast.Name) and n.value.value.id == tv \
+                and isinstance(n.value.slice, ast.Constant) and isinstance(n.value.slice.value, int) and isinstance(n.targets[0], ast.Name):
+            live[n.value.slice.value] = n.targets[0].id
+    return live
 
 
 def find_sites(ctx, r):
@@ -72,9 +87,14 @@ def find_sites(ctx, r):
             if isinstance(n, ast.Assign) and isinstance(n.value, ast.Call) and r.role_of_call(f, n.value) == "get_shape_memo":
                 t = n.targets[0]
                 if isinstance(t, (ast.Tuple, ast.List)) and len(t.elts) == 4 and all(isinstance(e, ast.Name) for e in t.elts):
-                    live = [e.id for e in t.elts]
-                    if _mutators(f, live, r):
+                    live = [e.id if e.id != "_" else None for e in t.elts]
+                    if _mutators(f, [x for x in live if x], r):
                         sites.append(Site(f, n, live))
+                elif isinstance(t, ast.Name):
+                    live = _live_from_tuple_var(f, t.id)
+                    names = [x for x in live if x] + [t.id]
+                    if _mutators(f, names, r):
+                        sites.append(Site(f, n, live, tuple_var=t.id))
     return sites
 
 
@@ -93,6 +113,8 @@ def _mutators(f, live, r):
             role = r.role_of_call(f, n)
             if role in ("set_shape_memo", "get_shape_memo", "shape_str"):
                 continue
+            if len(n.args) == 1 and isinstance(n.args[0], ast.Name) and n.args[0].id in live and _helper_copies_each(r.m, f, n):
+                continue  # a helper that only snapshots the memos
             names = [a.id for a in n.args if isinstance(a, ast.Name)] + [
                 k.value.id for k in n.keywords if isinstance(k.value, ast.Name)
             ]
@@ -168,7 +190,7 @@ def check_site(ctx: RuleContext, r, site: Site):
     m = ctx.model
     f = site.fn
     ctx.saw(f)
-    live = site.live
+    live = [x for x in site.live if x] + ([site.tuple_var] if site.tuple_var else [])
     muts = _mutators(f, live, r)
     g = NoReturn(m).cfg(f)
     st = g.stats()
@@ -286,7 +308,11 @@ def check_site(ctx: RuleContext, r, site: Site):
     mut_nodes = [n for n in g.live_nodes() if node_mut[n.id]]
     need(mut_nodes, f"{f.qualname}: mutating call not found in CFG")
     need(restore_calls, f"{f.qualname}: hands live memos to a callee but never calls set_shape_memo (C04.1 reports the paths)") if not ctx.findings else None
+    slots = site.live
     for rc in restore_calls:
+        if len(rc.args) == 1 and isinstance(rc.args[0], ast.Starred) and isinstance(rc.args[0].value, ast.Name) and not rc.keywords:
+            _check_starred_snapshot(ctx, m, f, site, rc, rc.args[0].value.id, g, dom, mut_nodes)
+            continue
         if len(rc.args) != 4 or rc.keywords:
             raise AnalysisError(f"{f.qualname}: set_shape_memo call with unrecognised arguments: {norm(rc)}")
         for i, a in enumerate(rc.args):
@@ -306,8 +332,8 @@ def check_site(ctx: RuleContext, r, site: Site):
                         ctx.bad("C04.2", f, stn, f"snapshot `{a.id}` is not a fresh copy of a live memo")
                     continue
                 src = _copied_name(val)
-                if live.index(src) != i:
-                    ctx.bad("C04.3", f, rc, f"restore argument {i} is a snapshot of slot {live.index(src)} (`{src}`): "
+                if src not in slots or slots.index(src) != i:
+                    ctx.bad("C04.3", f, rc, f"restore argument {i} is a snapshot of slot {slots.index(src) if src in slots else '?'} (`{src}`): "
                             "the memos would be restored into the wrong slots")
                     continue
                 # dominance: the snapshot node dominates every mutating node
@@ -320,6 +346,68 @@ def check_site(ctx: RuleContext, r, site: Site):
                         break
                 else:
                     ctx.ok("C04.2", f.qualname, f"slot {i}: `{a.id}` is a fresh copy of `{src}` taken before the mutating call")
+
+
+def _copies_each_in_order(e, tv) -> bool:
+    """`tuple([x.copy() for x in tv])`, `tuple(x.copy() for x in tv)`, `[dict(x) for x in tv]`, `tuple(map(dict, tv))`"""
+    inner = e
+    if isinstance(e, ast.Call) and norm(e.func) in ("tuple", "list") and len(e.args) == 1:
+        inner = e.args[0]
+    if isinstance(inner, (ast.ListComp, ast.GeneratorExp)) and len(inner.generators) == 1 and not inner.generators[0].ifs \
+            and isinstance(inner.generators[0].iter, ast.Name) and inner.generators[0].iter.id == tv and isinstance(inner.generators[0].target, ast.Name):
+        return c05._is_copy_of(inner.elt, {inner.generators[0].target.id})
+    if isinstance(inner, ast.Call) and norm(inner.func) == "map" and len(inner.args) == 2 and norm(inner.args[0]) in ("dict", "copy.copy") and norm(inner.args[1]) == tv:
+        return True
+    return False
+
+
+def _helper_copies_each(m, f, call) -> bool:
+    """A helper `H(memos)` that returns a 4-tuple of copies of the elements of its argument, in order."""
+    t = m.resolve_call(f, call)
+    if t.kind != "func" or not t.target.params:
+        return False
+    h = t.target
+    p = h.params[0]
+    rets = [x.value for x in walk_scope(h.node) if isinstance(x, ast.Return)]
+    if len(rets) != 1:
+        return False
+    rv = rets[0]
+    if _copies_each_in_order(rv, p):
+        return True
+    names = [None] * 4
+    for n in walk_scope(h.node):
+        if isinstance(n, ast.Assign) and isinstance(n.value, ast.Name) and n.value.id == p and isinstance(n.targets[0], ast.Tuple) and len(n.targets[0].elts) == 4:
+            names = [e.id if isinstance(e, ast.Name) else None for e in n.targets[0].elts]
+    if isinstance(rv, ast.Tuple) and len(rv.elts) == 4 and all(names):
+        return all(c05._is_copy_of(e, {names[i]}) and _copied_name(e) == names[i] for i, e in enumerate(rv.elts))
+    return False
+
+
+def _check_starred_snapshot(ctx, m, f, site, rc, bname, g, dom, mut_nodes):
+    defs = c05._assignments_to(f, bname)
+    if len(defs) != 1 or defs[0][2] is not None:
+        raise AnalysisError(f"{f.qualname}: snapshot tuple `{bname}` has {len(defs)} definitions")
+    stn, val, _ = defs[0]
+    if isinstance(val, ast.Name) and val.id == site.tuple_var:
+        ctx.bad("C04.2", f, stn, f"`{bname}` is the live memo tuple itself, not a snapshot: the rollback restores nothing")
+        return
+    ok = site.tuple_var is not None and _copies_each_in_order(val, site.tuple_var)
+    if not ok and site.tuple_var is not None and isinstance(val, ast.Call) and [norm(a) for a in val.args] == [site.tuple_var]:
+        ok = _helper_copies_each(m, f, val)
+    if not ok and isinstance(val, ast.Tuple) and len(val.elts) == 4:
+        ok = all(site.live[i] is not None and c05._is_copy_of(e, {site.live[i]}) and _copied_name(e) == site.live[i] for i, e in enumerate(val.elts))
+        if not ok and all(c05._is_copy_of(e, set(x for x in site.live if x)) for e in val.elts):
+            ctx.bad("C04.3", f, stn, f"the snapshot tuple `{bname}` copies the live memos in a different order than (single, variadic, pytree, arguments)")
+            return
+    if not ok:
+        raise AnalysisError(f"{f.qualname}: snapshot tuple `{bname} = {short(val, 60)}` is not recognised as 'a copy of each live memo, in order'")
+    snodes = g.nodes_of_stmt(stn)
+    need(snodes, f"{f.qualname}: snapshot statement not in CFG")
+    for mn in mut_nodes:
+        if not any(sn.id in dom[mn.id] for sn in snodes):
+            ctx.bad("C04.2", f, stn, f"the snapshot `{bname}` is not taken on every path before the mutating call `{short(mn.ast, 60)}`")
+            return
+    ctx.ok("C04.2", f.qualname, f"`{bname}` holds a fresh copy of each of the four live memos, in order, taken before the mutating call")
 
 
 def _copied_name(val):
